@@ -31,25 +31,29 @@ def _silent(fn):
         return fn()
 
 
-def eq_hash_ok(i: int, j: int, purge_between: bool) -> bool:
+def eq_hash_ok(i: int) -> bool:
     """
-    pre: 0 <= i < NARGS and 0 <= j < NARGS
+    pre: 0 <= i < NARGS
     post: _
     """
-    # compile(x) == compile(y) exactly when the argument tuples are equal; equal objects have equal hashes
-    i, j, purge_between = concrete(i), concrete(j), concrete(purge_between)
+    # compile(x) == compile(y) exactly when the argument tuples are equal; equal objects have equal hashes; for the
+    # tuple x chosen by symbolic index against every tuple y, with and without a purge in between
+    i = concrete(i)
+    ok = True
     with notrace():
-        x, y = ARGS[i], ARGS[j]
-        sv.purge()
-        a = _silent(lambda: sv.compile(x[0], x[1], x[3], custom=x[2]))
-        if purge_between:
-            sv.purge()
-        b = _silent(lambda: sv.compile(y[0], y[1], y[3], custom=y[2]))
-        eq = a == b
-        ok = eq == _equiv(x, y) and (a != b) == (not eq)
-        if eq:
-            ok = ok and hash(a) == hash(b) and hash(a.selectors) == hash(b.selectors)
-            ok = ok and len({a, b}) == 1
+        for j in range(NARGS):
+            for purge_between in (False, True):
+                x, y = ARGS[i], ARGS[j]
+                sv.purge()
+                a = _silent(lambda: sv.compile(x[0], x[1], x[3], custom=x[2]))
+                if purge_between:
+                    sv.purge()
+                b = _silent(lambda: sv.compile(y[0], y[1], y[3], custom=y[2]))
+                eq = a == b
+                ok = ok and eq == _equiv(x, y) and (a != b) == (not eq)
+                if eq:
+                    ok = ok and hash(a) == hash(b) and hash(a.selectors) == hash(b.selectors)
+                    ok = ok and len({a, b}) == 1
     return ret(ok)
 
 
@@ -295,23 +299,23 @@ def cache_bound_ok(n: int) -> bool:
     return ret(ok)
 
 
-def compiled_passthrough_ok(i: int, extra: int) -> bool:
+def compiled_passthrough_ok(i: int) -> bool:
     """
     pre: 0 <= i < NPOOL
-    pre: 0 <= extra <= 4
     post: _
     """
-    i, extra = concrete(i), concrete(extra)
+    i = concrete(i)
+    ok = True
     with notrace():
         c = sv.compile(POOL[i], NSMAP)
-        if extra == 0:
-            return ret(sv.compile(c) is c and sv.compile(c, None, 0, custom=None) is c)
-        kw = [None, dict(flags=sv.DEBUG), dict(namespaces={}), dict(custom={}), dict(namespaces={'a': 'b'})][extra]
-        try:
-            sv.compile(c, **kw)
-            return ret(False)
-        except ValueError:
-            return ret(True)
+        ok = ok and sv.compile(c) is c and sv.compile(c, None, 0, custom=None) is c
+        for kw in (dict(flags=sv.DEBUG), dict(namespaces={}), dict(custom={}), dict(namespaces={'a': 'b'})):
+            try:
+                sv.compile(c, **kw)
+                ok = False
+            except ValueError:
+                pass
+    return ret(ok)
 
 
 # ---- IR value types: Eq/hash consistency with symbolic field values ---------------------------------------
